@@ -25,6 +25,14 @@ ssize_t __real_read(int, void*, size_t);
 ssize_t __real_pread(int, void*, size_t, off_t);
 ssize_t __real_pread64(int, void*, size_t, off_t);
 int __real_close(int);
+int __real_fstat(int, struct stat*);
+int __real_fstat64(int, struct stat64*);
+int __real_stat(const char*, struct stat*);
+int __real_stat64(const char*, struct stat64*);
+int __wrap_fstat(int, struct stat*);
+int __wrap_fstat64(int, struct stat64*);
+int __wrap_stat(const char*, struct stat*);
+int __wrap_stat64(const char*, struct stat64*);
 ssize_t __real_write(int, const void*, size_t);
 ssize_t __real_pwrite(int, const void*, size_t, off_t);
 ssize_t __real_pwrite64(int, const void*, size_t, off_t);
@@ -127,6 +135,39 @@ inline void rendezvous_after_read() {
     }
     if (r.readers.load(std::memory_order_relaxed) < 2) return;
     sched_yield();
+  }
+}
+
+// Lying metadata: while armed, fstat/stat of the registered file (device/inode) report st_size = lie, everything else is
+// untouched; read() keeps delivering the true bytes (a file that grew or shrank between the size query and the read).
+struct StatMon {
+  std::atomic<bool> active{false};
+  dev_t dev = 0;
+  ino_t ino = 0;
+  off_t lie = 0;
+  size_t lied = 0;  // how many answers were falsified
+};
+inline StatMon& sm() {
+  static StatMon m;
+  return m;
+}
+struct StatLieScope {
+  StatLieScope(dev_t dev, ino_t ino, off_t lie) {
+    StatMon& m = sm();
+    m.dev = dev;
+    m.ino = ino;
+    m.lie = lie;
+    m.lied = 0;
+    m.active = true;
+  }
+  ~StatLieScope() { sm().active = false; }
+};
+template <typename ST>
+inline void apply_stat_lie(int rc, ST* st) {
+  StatMon& m = sm();
+  if (rc == 0 && m.active.load(std::memory_order_relaxed) && st->st_dev == m.dev && st->st_ino == m.ino) {
+    st->st_size = m.lie;
+    m.lied++;
   }
 }
 
@@ -401,5 +442,26 @@ ssize_t __wrap_writev(int fd, const struct iovec* iov, int cnt) {
   ssize_t r = __real_write(fd, flat.data(), ask);
   if (r > 0) m.bytes += (uint64_t)r;
   return r;
+}
+
+int __wrap_fstat(int fd, struct stat* st) {
+  int rc = __real_fstat(fd, st);
+  io::apply_stat_lie(rc, st);
+  return rc;
+}
+int __wrap_fstat64(int fd, struct stat64* st) {
+  int rc = __real_fstat64(fd, st);
+  io::apply_stat_lie(rc, st);
+  return rc;
+}
+int __wrap_stat(const char* path, struct stat* st) {
+  int rc = __real_stat(path, st);
+  io::apply_stat_lie(rc, st);
+  return rc;
+}
+int __wrap_stat64(const char* path, struct stat64* st) {
+  int rc = __real_stat64(path, st);
+  io::apply_stat_lie(rc, st);
+  return rc;
 }
 }
